@@ -413,38 +413,19 @@ def _qtables():
     return _Q
 
 
-def sweep_one(v, memo=None):
-    """three sub-results for the value v: at 2^24 (exact, round trip), at 256 and at 88 (quantised nearest,
-    RGB of that entry, round trip).  Returns {name: (ok, detail)}."""
+def sweep_one(v, memo=None, which=("true", "256", "88")):
+    """sub-results for the value v: at 2^24 (exact, round trip), at 256 and at 88 (quantised nearest,
+    RGB of that entry, round trip).  Returns {name: (ok, detail-or-None)}."""
     q = _qtables()
     desc = "#%06x" % v
     r, g, b = (v >> 16) & 255, (v >> 8) & 255, v & 255
     out = {}
-    # true colour
-    st, s = build(desc, desc, TRUE)
-    why = None
-    if st != "ok":
-        why = f"valid specification not accepted -> {st}: {s}"
-    else:
-        try:
-            if not (s.foreground_true and s.background_true) or s.foreground_basic or s.foreground_high or s.background_basic or s.background_high:
-                why = "not stored as a true colour on both sides"
-            elif s.foreground_number != v or s.background_number != v:
-                why = f"stored {s.foreground_number:#x}/{s.background_number:#x}"
-            elif s.colors != TRUE:
-                why = f"reports {s.colors} colours"
-            elif s.get_rgb_values() != (r, g, b, r, g, b):
-                why = f"get_rgb_values {s.get_rgb_values()}"
-            else:
-                fgd, bgd = s.foreground, s.background
-                s2 = AttrSpec(fgd, bgd, TRUE)
-                if not (s2 == s) or s2 != s or hash(s2) != hash(s) or s2.foreground != fgd or s2.background != bgd:
-                    why = f"reported descriptions {fgd!r}/{bgd!r} do not rebuild an equal specification"
-        except Exception as e:  # noqa: BLE001
-            why = f"raised {type(e).__name__}: {e}"
-    out["true"] = (why is None, None if why is None else base_detail(desc, desc, TRUE) | {"v": v, "why": why})
+    if "true" in which:
+        out["true"] = _sweep_true(v, desc, r, g, b)
     # degraded
     for depth, pal in ((256, PAL256), (88, PAL88)):
+        if str(depth) not in which:
+            continue
         st, s = build(desc, desc, depth)
         why = None
         if st != "ok":
@@ -482,19 +463,46 @@ def sweep_one(v, memo=None):
     return out
 
 
-def _sample_value(block, salt):
-    """one value out of the 256-value block `block` (so all three bytes vary over the sample)."""
-    return block * 256 + ((block * 0x9E3779B1 + salt * 0x85EBCA6B + (block >> 8) * 0xC2B2AE35) >> 7) % 256
+def _sweep_true(v, desc, r, g, b):
+    st, s = build(desc, desc, TRUE)
+    why = None
+    if st != "ok":
+        why = f"valid specification not accepted -> {st}: {s}"
+    else:
+        try:
+            if not (s.foreground_true and s.background_true) or s.foreground_basic or s.foreground_high or s.background_basic or s.background_high:
+                why = "not stored as a true colour on both sides"
+            elif s.foreground_number != v or s.background_number != v:
+                why = f"stored {s.foreground_number:#x}/{s.background_number:#x}"
+            elif s.colors != TRUE:
+                why = f"reports {s.colors} colours"
+            elif s.get_rgb_values() != (r, g, b, r, g, b):
+                why = f"get_rgb_values {s.get_rgb_values()}"
+            else:
+                fgd, bgd = s.foreground, s.background
+                s2 = AttrSpec(fgd, bgd, TRUE)
+                if not (s2 == s) or s2 != s or hash(s2) != hash(s) or s2.foreground != fgd or s2.background != bgd:
+                    why = f"reported descriptions {fgd!r}/{bgd!r} do not rebuild an equal specification"
+        except Exception as e:  # noqa: BLE001
+            why = f"raised {type(e).__name__}: {e}"
+    return (why is None, None if why is None else base_detail(desc, desc, TRUE) | {"v": v, "why": why})
+
+
+def _sample_value(block, salt, size=256):
+    """one value out of the `size` consecutive values of block `block` (the offset is a mix of the block
+    number and the seed, so every byte varies over the sample)."""
+    return block * size + ((block * 0x9E3779B1 + salt * 0x85EBCA6B + (block >> 8) * 0xC2B2AE35) >> 7) % size
 
 
 def _sweep_worker(args):
-    lo, hi, mode, salt = args  # mode 'all': values lo..hi-1 ; 'sample': one value per 256-block lo..hi-1
+    """args = (lo, hi, size, salt, which): size 1 -> every value lo..hi-1; otherwise one value from each
+    block lo..hi-1 of `size` consecutive values.  `which`: the depths evaluated ('true', '256', '88')."""
+    lo, hi, size, salt, which = args
     memo = {}
-    res = {k: {"n": 0, "fail": [], "nfail": 0} for k in ("true", "256", "88")}
-    rg = range(lo, hi)
-    for x in rg:
-        v = x if mode == "all" else _sample_value(x, salt)
-        for k, (ok, det) in sweep_one(v, memo).items():
+    res = {k: {"n": 0, "fail": [], "nfail": 0} for k in which}
+    for x in range(lo, hi):
+        v = x if size == 1 else _sample_value(x, salt, size)
+        for k, (ok, det) in sweep_one(v, memo, which).items():
             a = res[k]
             a["n"] += 1
             if not ok:
@@ -502,6 +510,24 @@ def _sweep_worker(args):
                 if len(a["fail"]) < 5:
                     a["fail"].append(det)
     return res
+
+
+def sweep_plan(tier):
+    """(chunks, {depth key: (exhaustive, bound text)}, processes)"""
+    allk = ("true", "256", "88")
+    if tier == "quick":
+        txt = "one value from each of the 65536 blocks of 256 consecutive values of #000000..#ffffff (1/256 sample, seeded)"
+        return [(lo, lo + 8192, 256, None, allk) for lo in range(0, 65536, 8192)], {k: (False, txt) for k in allk}, 1
+    full = "all 16 777 216 values #000000..#ffffff (16 processes)"
+    if tier == "exhaustive":  # ~1300 CPU-seconds: about 2.5 min on 16 idle cores
+        return [(lo, lo + 65536, 1, None, allk) for lo in range(0, 2**24, 65536)], {k: (True, full) for k in allk}, 16
+    # thorough: ~450 CPU-seconds.  The exhaustive sweep at all three depths was measured at 1330 CPU-s (856 s
+    # wall on a machine shared with 13 other jobs, i.e. over the 10-minute budget there), so the two
+    # degraded depths take a stated 1/16 sample; tier="exhaustive" runs everything.
+    txt = "one value from each of the 1 048 576 blocks of 16 consecutive values of #000000..#ffffff (1/16 sample, seeded; 16 processes)"
+    chunks = [(lo, lo + 65536, 1, None, ("true",)) for lo in range(0, 2**24, 65536)]
+    chunks += [(lo, lo + 16384, 16, None, ("256", "88")) for lo in range(0, 2**20, 16384)]
+    return chunks, {"true": (True, full), "256": (False, txt), "88": (False, txt)}, 16
 
 
 class CountCheck(Check):
@@ -645,6 +671,23 @@ def run(tier="quick", seed=0):
     quick = tier == "quick"
     t_start = time.time()
     r_ = rng(seed)
+    salt = int(seed)
+    # the #000000..#ffffff sweep runs in worker processes while this process does the other checks
+    chunks, sweep_bounds, nproc = sweep_plan(tier)
+    chunks = [(lo, hi, size, salt, which) for lo, hi, size, _, which in chunks]
+    pool_ = pending = None
+    if nproc > 1:
+        pool_ = multiprocessing.get_context("fork").Pool(nproc)
+        pending = pool_.map_async(_sweep_worker, chunks, chunksize=1)
+    try:
+        return _run(tier, seed, quick, t_start, r_, salt, chunks, sweep_bounds, pool_, pending)
+    except BaseException:
+        if pool_ is not None:
+            pool_.terminate()
+        raise
+
+
+def _run(tier, seed, quick, t_start, r_, salt, chunks, sweep_bounds, pool_, pending):
     domain = "all basic names, default, '', h0..h255, #000..#fff, g0..g100, g#00..g#ff; depths 1/16/88/256/2^24; as foreground and as background"
 
     rt = KCheck("C18/round-trip", "every valid finite descriptor x depth x side: accepted; foreground/background/colors/get_rgb_values/hash/repr work; AttrSpec(s.foreground, s.background, depth) == s with equal hash; describing is idempotent; colors <= depth", True, domain)
@@ -831,31 +874,29 @@ def run(tier="quick", seed=0):
                     n8.case((depth, v), ok, det | {"case": case}, sample=case)
     n8.stop()
 
-    # the 2^24 sweep
-    t_sw = time.time()
-    exhaustive = not quick
-    salt = int(seed)
+    # the 2^24 sweep: collect
     sw = {
-        "true": CountCheck("C18/true-colour-round-trip", "'#rrggbb' as foreground and background at 2^24: stored exactly, colors = 2^24, get_rgb_values = (r,g,b), descriptions rebuild an equal specification with equal hash", exhaustive, ""),
-        "256": CountCheck("C18/true-colour-degrade-256", "'#rrggbb' at 256: both sides stored as the cube entry nearest to the quantised value ('#rrggbb' -> '#rgb'), get_rgb_values is that entry, colors = 256, round trip", exhaustive, ""),
-        "88": CountCheck("C18/true-colour-degrade-88", "'#rrggbb' at 88: same, 88-colour cube", exhaustive, ""),
+        "true": CountCheck("C18/true-colour-round-trip", "'#rrggbb' as foreground and background at 2^24: stored exactly, colors = 2^24, get_rgb_values = (r,g,b), descriptions rebuild an equal specification with equal hash", *sweep_bounds["true"]),
+        "256": CountCheck("C18/true-colour-degrade-256", "'#rrggbb' at 256: both sides stored as the cube entry nearest to the quantised value ('#rrggbb' -> '#rgb'), get_rgb_values is that entry, colors = 256, round trip", *sweep_bounds["256"]),
+        "88": CountCheck("C18/true-colour-degrade-88", "'#rrggbb' at 88: same, 88-colour cube", *sweep_bounds["88"]),
     }
-    if quick:
-        parts = [_sweep_worker((0, 65536, "sample", salt))]
-        bound = "one value from each of the 65536 blocks of 256 consecutive values of #000000..#ffffff (1/256 sample, seeded)"
+    t_sw = t_start if pending is not None else time.time()
+    if pending is not None:
+        try:
+            parts = pending.get()
+        finally:
+            pool_.close()
+            pool_.join()
     else:
-        chunks = [(lo, min(lo + 65536, 2**24), "all", salt) for lo in range(0, 2**24, 65536)]
-        ctx = multiprocessing.get_context("fork")
-        with ctx.Pool(16) as pool_:
-            parts = pool_.map(_sweep_worker, chunks, chunksize=1)
-        bound = "all 16 777 216 values #000000..#ffffff (16 processes)"
+        parts = [_sweep_worker(c) for c in chunks]
     for part in parts:
         for k, a_ in part.items():
             sw[k].bulk(a_["n"], a_["fail"], a_["nfail"])
     for k in sw:
-        sw[k].bound = bound
         sw[k].wall = round(time.time() - t_sw, 2)
-        sw[k].samples = [{"fg": "#%06x" % (_sample_value(b_, salt) if quick else b_), "depth": k} for b_ in (0, 1, 65535)]
+        first = [c for c in chunks if k in c[4]][0]
+        sw[k].samples = [{"fg": "#%06x" % (x if first[2] == 1 else _sample_value(x, salt, first[2])), "depth": k} for x in (0, 1, 2)]
+    bound = "; ".join(f"#rrggbb at {k}: {sweep_bounds[k][1]}" for k in sw)
 
     checks = [rt, mean, dep, mixed, xt, ex, sett, eqc, rej, mal, n8, sw["true"], sw["256"], sw["88"]]
     return {
@@ -926,3 +967,12 @@ def replay(check_name, case):
     else:
         ok, det = EVALUATORS[check_name](case)
     return {"outcome": "not-reproduced" if ok else "confirmed", "detail": det}
+
+
+# Reading decided by the framework owner (DESIGN.md §6 C18): the statement's "nearest entry" clause is about
+# colour-cube (#rgb) and gray (gN, g#xx) values; a 24-bit #rrggbb given below true-colour depth is first
+# reduced to its #rgb form (high nibbles) by design and then mapped to the nearest entry. The strict
+# reading (nearest entry to the full 24-bit value) is kept as an observation, not a violation.
+INFORMATIONAL = {
+    "C18/degrade-nearest-8bit": "strict nearest-entry for #rrggbb below true colour is not demanded by the statement (quantised reading passes on all 16.7 M values)",
+}
